@@ -236,6 +236,9 @@ def prop_C06(run):
     rules_mpt.build_output_rules(run)
     rules_mpt.pipeline(run)
     rules_mpt.bitvec_rules(run)
+    rules_mpt.overlap_rules(run)
+    rules_mpt.full_loops(run, "asm::output::fill_banks", what="every bank definition")
+    rules_mpt.full_loops(run, "asm::output::check_bank_overlap", what="every pair of banks")
     n = lim2_obligations(run, only=lambda key, f: bool(__import__("re").search(r"asm::output|overlap_checker|resolver::iter|bitvec::BitVec::write|resolver::(res|align|addr)::|defs::bankdef", key)))
     run.floor("LIM2", "layout arithmetic sites", n, 10)
     run.rules_run += ["MPT every emission dominated by check_bank_usage, check_bank_output(size, write) and the overlap checker with the same position/size",
@@ -250,6 +253,7 @@ def prop_C12(run):
     rules_unit.src_bind(run)
     n = lim2_obligations(run, only=lambda key, f: "symbol_format" in key or "format_addrspan" in key)
     rules_mpt.symbol_listing(run)
+    rules_mpt.mesen_header_rule(run)
     run.rules_run += ["MPT span = write; who may write bits; listings sort spans by offset; symbol listing skips no_emit and sorts by declaration index", "UNIT/SRC for excerpts", "LIM2 on the Mesen offset"]
 
 
@@ -280,6 +284,7 @@ def prop_C15(run):
     rules_sym.walker_rules(run)
     rules_sym.use_rules(run)
     rules_sym.parse_rules(run)
+    rules_sym.prepass_rules(run)
     rules_mpt.pipeline(run)
     run.rules_run += ["SYM declare: level test, duplicate test and insertion use one scope expression", "SYM lookup: scope = enclosing[0..level], descent name by name, unknown is an error",
                       "SYM walkers: sibling AST walkers update the context on every Symbol node", "SYM use: lookups use the context of the point of use; unresolved is an error on the last pass",
